@@ -67,6 +67,10 @@ def _new_like(B, X, name, n=2):
         return [one(x, f"{name}{i}") for i, x in enumerate(X)]
     if isinstance(X, xr.Dataset):
         return xr.Dataset({v: one(X[v], f"{name}{v}") for v in X.data_vars})
+    if "t1" in X.dims:
+        shape = tuple(2 if d == "t2" else (1 if d == "t1" else X.sizes[d]) for d in X.dims)
+        coords = {d: ([7, 8] if d == "t2" else (["z"] if d == "t1" else X[d].values)) for d in X.dims}
+        return xr.DataArray(B.array(shape, name), dims=X.dims, coords=coords, name=X.name)
     return one(X, name)
 
 
@@ -100,7 +104,7 @@ def h_frame(B, struct="2d", op="transform", flags=None):
     X, dim, fd = _mk(B, struct, "x")
     X0 = copy.deepcopy(X)
     names0 = [getattr(x, "name", None) for x in (X if isinstance(X, list) else [X])]
-    Xn = _new_like(B, X, "xn") if struct != "multiindex" else None
+    Xn = _new_like(B, X, "xn")
     S = xr.DataArray(B.array((2, 2), "S"), dims=("time", "mode"), coords={"time": [100, 101], "mode": [1, 2]}) if struct != "multiindex" else None
     model = M.single("EOF", n_modes=2, solver="full", **flags).fit(X, dim)
     B.covers(f"operation {op}")
@@ -124,8 +128,8 @@ def h_refit(B, s1="2d", s2="2d", op="none", flags=None):
     flags = dict(flags or {})
     D1, dim1, _ = _mk(B, s1, "d")
     D2, dim2, _ = _mk(B, s2, "e")
-    Xn1 = _new_like(B, D1, "dn") if s1 != "multiindex" else None
-    Xn2 = _new_like(B, D2, "en") if s2 != "multiindex" else None
+    Xn1 = _new_like(B, D1, "dn")
+    Xn2 = _new_like(B, D2, "en")
     S = xr.DataArray(B.array((2, 2), "S"), dims=("time", "mode"), coords={"time": [100, 101], "mode": [1, 2]})
     model = M.single("EOF", n_modes=2, solver="full", **flags).fit(D1, dim1)
     _apply(B, op, model, D1, Xn1, S)
@@ -194,7 +198,7 @@ def configs(tier):
     for op in OPS:
         add("h_frame", f"frame|2d-p3|{op}", struct="2d-p3", op=op)
     for st in ("3d", "dataset", "list", "multiindex"):
-        for op in ("transform", "rotator") if st != "multiindex" else ("queries", "rotator"):
+        for op in ("transform", "rotator"):
             add("h_frame", f"frame|{st}|{op}", struct=st, op=op)
     add("h_frame", "frame|2d-p3|standardize|transform", struct="2d-p3", op="transform", flags={"standardize": True})
     pairs = [("2d", "2d"), ("2d", "2d-p3"), ("2d-p3", "3d"), ("3d", "2d"), ("dataset", "2d"), ("2d", "list"), ("list", "list"), ("multiindex", "2d"), ("2d", "multiindex")]
@@ -202,6 +206,7 @@ def configs(tier):
         add("h_refit", f"refit|{s1}->{s2}|none", s1=s1, s2=s2, op="none")
     for op in ("transform", "rotator", "serialize") if tier == "quick" else OPS:
         add("h_refit", f"refit|2d->2d-p3|{op}", s1="2d", s2="2d-p3", op=op)
+    add("h_refit", "refit|multiindex->multiindex|transform", s1="multiindex", s2="multiindex", op="transform")
     add("h_refit", "refit|2d->2d|standardize", s1="2d", s2="2d", op="none", flags={"standardize": True})
     add("h_cross_frame", "cross|frame|rotator", op="rotator")
     add("h_cross_frame", "cross|frame|transform", op="transform", alpha=0.5)
